@@ -2,7 +2,7 @@
 import re
 
 import lib
-from lib import sx, parse_sx
+from lib import sx
 from gen import ctable, reqtext, cdump
 
 PROOF_FILE = "C11"
@@ -38,6 +38,17 @@ MANIFEST = dict(
     technique="Rocq proof over an executable model + differential correspondence + round-trip oracle on Go outputs",
     design="8 C11")
 
+_PARSED = {}
+
+
+def parse_sx(line):
+    """every output line is looked at by several passes: parse it once"""
+    r = _PARSED.get(line)
+    if r is None:
+        r = _PARSED[line] = lib.parse_sx(line)
+    return r
+
+
 SYSTEMS = [0, 4, 1, 2, 5]
 NAMES = ["Default", "Cargo", "Go", "Maven", "NPM", "NuGet", "PyPI", "RubyGems", "Composer"]
 
@@ -68,7 +79,7 @@ def project(line):
 
 def gen_cases(ctx):
     rng = ctx.rng
-    n = ctx.scale(10000, 500000)
+    n = ctx.scale(8500, 450000)
     cases = []
     for k in range(n):
         sysi = SYSTEMS[k % 5]
@@ -86,6 +97,26 @@ def seed_keys(cases, impl_lines):
         if line.startswith('("ok"'):
             r = parse_sx(line)
             c["keys"] |= ctable.set_string_keys(bytes(r[1]))
+
+
+def add_span_probes(ctx, cases):
+    """second probe pass: Go is asked for the set and for the re-parsed set first (no probes);
+    the bounds of their spans, as Go holds them, become probes (never cut), with neighbours"""
+    pre = ctx.impl("setrt", ["(" + " ".join(c["head"][:2]) + " () ())" for c in cases])
+    ctx.evaluations -= len(cases)
+    out = []
+    for c, line in zip(cases, pre):
+        if line.startswith('("ok"'):
+            r = parse_sx(line)
+            spans = [cdump.Span(s) for s in r[4][1]]
+            if r[2][0] == b"ok":
+                spans += [cdump.Span(s) for s in r[2][3][1]]
+            extra = reqtext.span_probes(ctx.rng, c["sys"], spans, have=c["probes"])
+            ctx.count("span-probes:%d" % min(len(extra) // 4 * 4, 24))
+            if extra:
+                c = mk(c["sys"], c["text"], c["probes"] + extra)
+        out.append(c)
+    return out
 
 
 def oracle(ctx, cases, impl_lines):
@@ -128,7 +159,7 @@ def oracle(ctx, cases, impl_lines):
 
 def run(ctx):
     tables = ctable.Tables(ctx)
-    cases = gen_cases(ctx)
+    cases = add_span_probes(ctx, gen_cases(ctx))
     impl_lines = ctx.impl("setrt", ctable.impl_args(cases))
     seed_keys(cases, impl_lines)
     # C11 is about the set of a parsed constraint: the model prints and re-parses the set Go
@@ -154,8 +185,21 @@ def run(ctx):
             nd += 1
             if nd <= 40:
                 ctx.divergence("setrt", {"system": NAMES[c["sys"]], "constraint": c["text"], "probes": c["probes"]}, i[:1500], m[:1500])
+    # the share of the generated sets inside the region of C11_reparse_checked (set_ok_b)
+    inside = set()
+    for k, m in zip(idx, outs):
+        if m.startswith('("ok"'):
+            name = NAMES[cases[k]["sys"]]
+            ctx.count("region:%s:sets" % name)
+            if m.rstrip().endswith(" 1)"):
+                ctx.count("region:%s:inside C11_reparse_checked" % name)
+                inside.add(k)
     open_ids = set(k["id"] for k in lib.load_known("C11") if k.get("status") == "open")
     for (idx, what, inp, obs, req) in oracle(ctx, cases, impl_lines):
+        if idx in inside and project(impl_lines[idx]) == project(model_lines[idx]):
+            # the theorem says the round trip holds for this set: model and proof contradict each other
+            ctx.divergence("theorem-region", inp, "round trip fails inside the region of C11_reparse_checked: " + what, "no hit")
+            continue
         cls = classify(cases[idx], impl_lines[idx]) if project(impl_lines[idx]) == project(model_lines[idx]) else None
         if cls is not None and cls in open_ids:
             ctx.known_hits[cls] = ctx.known_hits.get(cls, 0) + 1
@@ -196,7 +240,7 @@ def classify(case, impl_line):
 
 
 def oracle_only(ctx):
-    cases = gen_cases(ctx)
+    cases = add_span_probes(ctx, gen_cases(ctx))
     impl_lines = ctx.impl("setrt", ctable.impl_args(cases))
     for (idx, what, inp, obs, req) in oracle(ctx, cases, impl_lines):
         ctx.violation(what, inp, obs, req)
